@@ -44,6 +44,9 @@ type world struct {
 	runParked      bool          // … and a call is parked there
 	writesInFlight int           // UpdateStatus calls entered and not yet returned
 	failFirst      string        // "", "T", "F": the next source that opens fails on its first Read
+	openFailAt     map[int]int   // additional source idx -> number of Opens that still fail
+	dlqOpenFail    int           // the next n Opens of a DLQ destination plugin fail
+	dstOpenFail    int           // the next n Opens of the destination plugin fail
 	stopFail       int           // the next n stop calls (v1: Stop RPC, v2: Teardown) of an additional source fail
 	v2             bool          // engine under test
 	hold           bool          // the destination withholds its acks (the drain cannot finish)
@@ -65,7 +68,7 @@ type gate struct {
 
 func newWorld() *world {
 	now := time.Now()
-	w := &world{t0: now, last: now, gates: map[string]*gate{}, hbStop: make(chan struct{})}
+	w := &world{t0: now, last: now, gates: map[string]*gate{}, openFailAt: map[int]int{}, hbStop: make(chan struct{})}
 	go w.heartbeat()
 	return w
 }
@@ -274,7 +277,8 @@ func (d *dispenser) DispenseSpecifier() (connectorPlugin.SpecifierPlugin, error)
 }
 func (d *dispenser) DispenseSource() (connectorPlugin.SourcePlugin, error) {
 	if d.id != "src" {
-		return &quietSource{w: d.w}, nil
+		idx, _ := strconv.Atoi(strings.TrimPrefix(d.id, "src"))
+		return &quietSource{w: d.w, idx: idx}, nil
 	}
 	return &fakeSource{w: d.w, fail: make(chan string, 1)}, nil
 }
@@ -283,7 +287,9 @@ func (d *dispenser) DispenseSource() (connectorPlugin.SourcePlugin, error) {
 // records and no trace tokens; its stop path (v1: the Stop RPC, v2: Teardown, which is what
 // funnel.Worker.Stop calls) fails on script, one call at a time (`SF` token).
 type quietSource struct {
-	w *world
+	w      *world
+	idx    int  // 2 for connector "src2", … (the primary source "src" is index 1)
+	opened bool // O<idx> logged and not yet T<idx>
 }
 
 func (q *quietSource) LifecycleOnCreated(context.Context, pconnector.SourceLifecycleOnCreatedRequest) (pconnector.SourceLifecycleOnCreatedResponse, error) {
@@ -299,6 +305,15 @@ func (q *quietSource) Configure(context.Context, pconnector.SourceConfigureReque
 	return pconnector.SourceConfigureResponse{}, nil
 }
 func (q *quietSource) Open(context.Context, pconnector.SourceOpenRequest) (pconnector.SourceOpenResponse, error) {
+	q.w.mu.Lock()
+	defer q.w.mu.Unlock()
+	if q.w.openFailAt[q.idx] > 0 {
+		q.w.openFailAt[q.idx]--
+		q.w.evLocked(fmt.Sprintf("OF%d", q.idx))
+		return pconnector.SourceOpenResponse{}, errInjected
+	}
+	q.opened = true
+	q.w.evLocked(fmt.Sprintf("O%d", q.idx))
 	return pconnector.SourceOpenResponse{}, nil
 }
 func (q *quietSource) NewStream() pconnector.SourceRunStream {
@@ -329,6 +344,14 @@ func (q *quietSource) Stop(context.Context, pconnector.SourceStopRequest) (pconn
 	return pconnector.SourceStopResponse{}, nil
 }
 func (q *quietSource) Teardown(context.Context, pconnector.SourceTeardownRequest) (pconnector.SourceTeardownResponse, error) {
+	// T<idx>: the plugin's Teardown was called (a call that fails on script still is the teardown the
+	// engine gave this plugin: connector.Source does not call it again)
+	q.w.mu.Lock()
+	if q.opened {
+		q.opened = false
+		q.w.evLocked(fmt.Sprintf("T%d", q.idx))
+	}
+	q.w.mu.Unlock()
 	if q.failOnce(true) {
 		return pconnector.SourceTeardownResponse{}, errors.New("verif: plugin teardown temporarily unavailable")
 	}
@@ -480,6 +503,19 @@ func (d *fakeDest) Configure(context.Context, pconnector.DestinationConfigureReq
 	return pconnector.DestinationConfigureResponse{}, nil
 }
 func (d *fakeDest) Open(context.Context, pconnector.DestinationOpenRequest) (pconnector.DestinationOpenResponse, error) {
+	d.w.mu.Lock()
+	defer d.w.mu.Unlock()
+	if strings.HasSuffix(d.id, "-dlq") || strings.Contains(d.id, "-dlq-") { // v1: <pl>-dlq, v2: <pl>-dlq-<hash>
+		if d.w.dlqOpenFail > 0 {
+			d.w.dlqOpenFail--
+			d.w.evLocked("DOF:q")
+			return pconnector.DestinationOpenResponse{}, errInjected
+		}
+	} else if d.w.dstOpenFail > 0 {
+		d.w.dstOpenFail--
+		d.w.evLocked("DOF:d")
+		return pconnector.DestinationOpenResponse{}, errInjected
+	}
 	return pconnector.DestinationOpenResponse{}, nil
 }
 func (d *fakeDest) NewStream() pconnector.DestinationRunStream {
